@@ -95,7 +95,9 @@ func DownSamplingMultiSeriesInto(
 		if decoder == nil {
 			continue
 		}
-		for movingSourceSlot := decoder.StartTime(); movingSourceSlot <= decoder.EndTime(); movingSourceSlot++ {
+		// iterate in int: a uint16 loop variable wraps around at slot 65535 and `<= EndTime()` never fails
+		for slot := int(decoder.StartTime()); slot <= int(decoder.EndTime()); slot++ {
+			movingSourceSlot := uint16(slot)
 			if !decoder.HasValueWithSlot(movingSourceSlot) {
 				continue
 			}
@@ -132,7 +134,9 @@ func DownSampling(
 	start := target.Start
 	end := target.End
 	intervalRatio := int(ratio)
-	for movingSourceSlot := source.Start; movingSourceSlot <= source.End; movingSourceSlot++ {
+	// iterate in int: a uint16 loop variable wraps around at slot 65535 and `<= source.End` never fails
+	for slot := int(source.Start); slot <= int(source.End); slot++ {
+		movingSourceSlot := uint16(slot)
 		value, ok := getter.GetValue(movingSourceSlot)
 		if !ok {
 			// no data, goto next loop
